@@ -7,6 +7,7 @@ import (
 	"pgregory.net/rapid"
 
 	"github.com/bytom/bytom/consensus"
+	"github.com/bytom/bytom/protocol/bc"
 
 	ck "verifharness/chainkit"
 	"verifharness/pbt"
@@ -118,6 +119,23 @@ func c14Exec(c c14Case, x *pbt.Ctx) error {
 			return fmt.Errorf("block #%d at height %d (first of epoch: %v) built from the reference reward table %v with coinbase outputs %s was not accepted: %v (best #%d)", i, h, h%e == 1, w.Blocks[i-1].State.Last.Rewards, coinbaseOutputs(w, i), derr, n.BestIdx())
 		}
 		addAmounts(i)
+		// a valid competitor for the same height that arrives after the block was connected (built
+		// from the same reference table, other time slot) must be accepted as well; around epoch
+		// boundaries this exercises the look-up of the governing checkpoint for a second child
+		if len(mutAt[i]) > 0 || h%e == 1 {
+			n.Chain.AllValidators(&[]bc.Hash{w.Hash(i - 1)}[0]) // a read query some callers make at any time
+			sib := w.Add(ck.BlockDesc{Parent: i - 1, Skip: 2 + c.Tree.Blocks[i-1].Skip})
+			if _, serr := n.Deliver(sib); serr != nil {
+				return fmt.Errorf("a second valid block for height %d (sibling of #%d, built from the reference reward table %v, coinbase %s) is refused: %v", h, i, w.Blocks[i-1].State.Last.Rewards, coinbaseOutputs(w, sib), serr)
+			}
+			if n.BestIdx() != i && n.BestIdx() != sib {
+				return fmt.Errorf("after a valid sibling for height %d the best block is #%d", h, n.BestIdx())
+			}
+			if n.BestIdx() == sib {
+				// the sibling won the hash tie-break: continue the main chain anyway (next block re-wins by height)
+				x.Class("sibling-won-tie")
+			}
+		}
 		// persisted reward table of a completed epoch equals the reference fold
 		if h%e == 0 {
 			hash := w.Hash(i)
